@@ -18,7 +18,9 @@ _WEIGHTS = [
     ('put', 18), ('del', 14), ('replace', 8), ('refresh', 6),
     ('deliver', 26), ('drain', 6),
     ('ready0', 4), ('ready1', 9),
-    ('exit', 7), ('tomb', 7), ('clean', 9),
+    ('exit', 8), ('tomb', 6), ('tomb_term', 4), ('monitor', 9),
+    ('monitor_restart', 4), ('fault', 5), ('finish_replace', 5),
+    ('clean', 9),
     ('restart', 7), ('node_start', 2),
 ]
 
@@ -62,6 +64,7 @@ class Gen:
         # cleaned before the manager (re)synchronises - long histories in which
         # at most one generation of an instance exists at a synchronisation
         self.tidy = rng.random() < 0.4
+        self._composite = False
 
     def _new_gen(self):
         self.next_gen += 1
@@ -88,6 +91,8 @@ class Gen:
         ops = [('ready', 1), ('drain',)]
         if self.tidy:
             ops.append(('clean_all',))
+        else:
+            ops.append(('monitor',))
         r = rng.random()
         if r < 0.45:
             ops += [('restart',), ('ready', 1), ('drain',)]
@@ -96,17 +101,33 @@ class Gen:
         return ops
 
     def next_op(self, node):
+        self._composite = False
         ops = self._next_op(node)
-        if not self.tidy:
+        if not self.tidy or self._composite:
             return ops
         out = []
+        if ops and ops[0][0] == 'exit':
+            # the container ends, its tombstone is written and handled at
+            # once (an armed s6 failure may hit the monitor)
+            out = [ops[0], ('tomb', ops[0][1])]
+            if self.rng.random() < 0.3:
+                out.append(('fault', 'svscan', 1))
+            out += [('drain',), ('clean_all',), ('monitor',),
+                    ('fault', 'svscan', 0)]
+            return out
         for op in ops:
-            if op[0] == 'refresh':
+            if op[0] in ('refresh', 'tomb_term', 'tomb'):
                 continue
+            if op[0] == 'fault':
+                # tidy histories keep the manager alive: s6 fails only when
+                # the node monitor calls it
+                if not any(o[0] == 'monitor' for o in ops):
+                    continue
+                op = ('fault', 'svscan', 1)
             idle = op[0] in ('restart', 'node_start') or op == ('ready', 0)
-            if idle or op[0] == 'tomb':
-                # (tomb: the monitor names the cleanup link after the
-                # instance; clean the previous generation's first)
+            if idle or op[0] == 'monitor':
+                # (monitor: it names the cleanup link after the instance;
+                # clean the previous generation's first)
                 out += [('drain',), ('clean_all',)]
             if op[0] == 'deliver':
                 op = ('drain',)
@@ -114,7 +135,14 @@ class Gen:
             if idle:
                 # no cache change while the manager is idle
                 out += [('drain',), ('ready', 1), ('drain',)]
-            elif op[0] in ('put', 'del', 'ready'):
+            elif op[0] == 'del':
+                # the terminated container stops, its tombstone is written
+                # and handled before the instance can come back
+                out += [('drain',), ('tomb_term_all',), ('monitor',),
+                        ('fault', 'svscan', 0)]
+            elif op[0] == 'monitor':
+                out.append(('fault', 'svscan', 0))
+            elif op[0] in ('put', 'ready'):
                 out.append(('drain',))
         return out or [('drain',)]
 
@@ -161,13 +189,67 @@ class Gen:
                 how = rng.choice(('exitinfo', 'exitinfo', 'aborted', 'oom',
                                   'sigabrt'))
                 ops = [('exit', inst, how)]
-                if rng.random() < 0.5:
+                if rng.random() < 0.6:
                     ops.append(('tomb', inst))
+                    if rng.random() < 0.3:
+                        ops.append(('fault', 'svscan', 1))
+                    if rng.random() < 0.6:
+                        ops.append(('monitor',))
+                return ops
+            if kind == 'finish_replace':
+                # the instance ends, is cleaned up, is scheduled on this node
+                # again; s6 may fail while the monitor hands it over and the
+                # monitor may restart afterwards - every step prompt
+                if node.running_target(inst) is None or not cached \
+                        or inst in node.pending_exit:
+                    continue
+                how = rng.choice(('exitinfo', 'aborted', 'oom', 'sigabrt'))
+                ops = [('drain',), ('exit', inst, how), ('tomb', inst)]
+                if rng.random() < 0.6:
+                    ops.append(('fault', 'svscan', 1))
+                ops += [('monitor',), ('fault', 'svscan', 0), ('clean_all',),
+                        ('del', inst), ('drain',),
+                        ('put', inst, self._new_gen(), False, _shape(rng)),
+                        ('drain',)]
+                if rng.random() < 0.7:
+                    ops.append(('monitor_restart',))
+                ops.append(('monitor',))
+                self._composite = True
                 return ops
             if kind == 'tomb':
-                if not node.tombstones:
+                if not node.pending_exit:
                     continue
-                return [('tomb', rng.choice(sorted(node.tombstones)))]
+                ops = [('tomb', rng.choice(sorted(node.pending_exit)))]
+                if rng.random() < 0.3:
+                    ops.append(('monitor_restart',))   # finds it at start
+                if rng.random() < 0.5:
+                    ops.append(('monitor',))
+                return ops
+            if kind == 'tomb_term':
+                if not node.terminated_candidates():
+                    continue
+                ops = [('tomb_term', rng.randrange(0, 8))]
+                if rng.random() < 0.3:
+                    ops.append(('monitor_restart',))
+                if rng.random() < 0.5:
+                    ops.append(('monitor',))
+                return ops
+            if kind == 'monitor':
+                return [('monitor',)]
+            if kind == 'monitor_restart':
+                ops = [('monitor_restart',)]
+                if rng.random() < 0.7:
+                    ops.append(('monitor',))
+                return ops
+            if kind == 'fault':
+                target = rng.choice(('svscan', 'svscan', 'svscan', 'service'))
+                ops = [('fault', target, rng.choice((1, 1, 2)))]
+                r = rng.random()
+                if r < 0.4:
+                    ops.append(('monitor',))
+                elif r < 0.8:
+                    ops.append(('deliver', rng.randrange(1, 3)))
+                return ops
             if kind == 'clean':
                 if not node.cleanup_links():
                     continue
@@ -215,11 +297,12 @@ class Run:
         self.reach[name] = self.reach.get(name, 0) + n
 
     # ------------------------------------------------------------------
-    def _after(self, kind, step_name, event=None, sync=False, active=False):
+    def _after(self, kind, step_name, event=None, sync=False, active=False,
+               tombs=()):
         prov = oracle_mod.Provenance(step_name, fakes.link_log(),
                                      fakes.call_log())
         found = self.oracle.step(kind, step_name, prov, event=event,
-                                 sync=sync, active=active)
+                                 sync=sync, active=active, tombs=tombs)
         cur = self.oracle.prev
         per_inst = {}
         for c in cur.apps:
@@ -234,6 +317,15 @@ class Run:
 
     def _exception(self, err):
         mech = 'exception:%s' % err
+        snap = oracle_mod.Snapshot(self.node, self.oracle.ident)
+        # naming only: an entry of running/ or cleanup/ that is not a link
+        # (MonitorContainerCleanup with signal 6 and no running link creates
+        # running/<instance>/data/ as real directories) is the usual cause
+        where = [d for d, links in (('running', snap.running),
+                                    ('cleanup', snap.cleanup))
+                 if any(t is None for t in links.values())]
+        if where:
+            mech += '[non-link-entry-in-%s]' % '+'.join(where)
         self.violations.append((mech, '%r escaped %s' % (err.err, err.where),
                                 {'state': oracle_mod.Snapshot(
                                     self.node, self.oracle.ident).describe()}))
@@ -246,7 +338,15 @@ class Run:
         if not node.pending():
             return False
         self.oracle.before()
-        ev = node.deliver_one()
+        try:
+            ev = node.deliver_one()
+        except drv.ManagerCrash as crash:
+            # _refresh_supervisor does not catch the s6 failure: the manager
+            # process dies inside the handler and its supervisor restarts it
+            self.count('manager_crashes_on_s6_failure')
+            ok = self._after('manager-crash', crash.where)
+            node.restart_manager()
+            return ok
         if ev is None:
             return False
         self.count('events_%s' % ev[0])
@@ -305,10 +405,12 @@ class Run:
                 while n < 200 and self._deliver():
                     n += 1
                 return not self.violations
-            if kind in ('exit', 'tomb', 'clean', 'node_start'):
+            if kind in ('exit', 'clean', 'node_start', 'monitor'):
                 self.oracle.before()
             if kind == 'exit':
                 if node.container_exit(op[1], op[2]):
+                    for hit in fakes.fault_hits():
+                        self.count('s6_failures_in_container_down_%s' % hit[0])
                     self.count('self_finish')
                     self.count('self_finish_%s' % op[2])
                     self.flags.add('self-finish')
@@ -316,9 +418,49 @@ class Run:
                 return True
             if kind == 'tomb':
                 if node.tombstone(op[1]):
-                    self.count('tombstones_processed')
-                    return self._after('env', 'MonitorContainerCleanup')
+                    self.count('tombstones_written')
+                    self.count('tombstones_written_ended_container')
                 return True
+            if kind == 'tomb_term':
+                if node.tombstone_terminated(op[1]):
+                    self.count('tombstones_written')
+                    self.count('tombstones_written_terminated_container')
+                return True
+            if kind == 'tomb_term_all':
+                n = 0
+                while n < 20 and node.tombstone_terminated(0):
+                    self.count('tombstones_written')
+                    self.count('tombstones_written_terminated_container')
+                    n += 1
+                return True
+            if kind == 'fault':
+                fakes.arm_fault(op[1], op[2])
+                if op[2]:
+                    self.count('faults_armed_%s' % op[1])
+                return True
+            if kind == 'monitor_restart':
+                node.start_monitor()
+                self.count('monitor_restarts')
+                if node.tombstone_files():
+                    self.count('monitor_restarts_with_tombstones_left')
+                return True
+            if kind == 'monitor':
+                tombs = node.run_monitor()
+                self.count('monitor_runs')
+                for hit in fakes.fault_hits():
+                    self.count('s6_failures_in_monitor_%s' % hit[0])
+                for _tid, _stamp, nth, res, owner, target, _origin in tombs:
+                    self.count('tombstones_executed')
+                    if nth > 1:
+                        self.count('tombstones_re_executed')
+                    if not res:
+                        self.count('tombstones_kept')
+                    if target is not None and target != owner:
+                        self.count('stale_tombstones_hit_other_container')
+                    elif target is None:
+                        self.count('tombstones_without_running_link')
+                return self._after('monitor', 'MonitorContainerCleanup',
+                                   tombs=tombs)
             if kind == 'clean':
                 if node.cleanup_one(op[1]):
                     self.count('cleanups_completed')
